@@ -15,7 +15,8 @@ def released_by (e : Ev) (j : Nat) : Prop :=
 /-- field-level description of what event `e` (taken in `s`) did to call `j` -/
 def CallStep (s : St) (e : Ev) (j : Nat) (c c' : Call) : Prop :=
   (c'.inv = c.inv ∨ (c.ci.st = .waiting ∧ c'.inv = some s.ninv ∧ e = .enter j s.ninv)) ∧
-  (c'.res = c.res ∨ (c.ci.st = .running ∧ ∃ k v h er, e = .leave j k v h er ∧ c.inv = some k ∧ c'.res = some (v, h, er))) ∧
+  (c'.res = c.res ∨ (c.ci.st = .running ∧ ∃ k v h er, e = .leave j k v h er ∧ c.inv = some k ∧ c'.res = some (v, h, er) ∧
+      (v = 0 ∨ v = k + 1))) ∧
   (c.released = true → c'.released = true) ∧ c'.nonce = c.nonce ∧ (c'.ci.st = .waiting → c.ci.st = .waiting) ∧
   (c'.fin = false → c.fin = false) ∧ (c.stored = true → c'.stored = true) ∧
   (c'.stored = true → c.stored = true ∨ e = .store j) ∧ (c'.released = true → c.released = true ∨ released_by e j) ∧
@@ -168,9 +169,9 @@ theorem calls_frame (s s' : St) (e : Ev) (hs : step s e = some s') : CallsFrame 
   | leave i k v hr er =>
     simp only [step] at hs; split at hs <;> try simp at hs
     rename_i c h
-    obtain ⟨⟨hw, hk, _⟩, rfl⟩ := hs
+    obtain ⟨⟨hw, hk, hval⟩, rfl⟩ := hs
     refine frame_setCall s _ i c _ _ h rfl ?_ (Or.inl ⟨rfl, by simp⟩)
-    exact ⟨Or.inl rfl, Or.inr ⟨hw, k, v, hr, er, rfl, hk, rfl⟩, fun h => h, rfl, by simp, fun h => h, fun h => h, fun h => Or.inl h, fun h => Or.inl h, rfl⟩
+    exact ⟨Or.inl rfl, Or.inr ⟨hw, k, v, hr, er, rfl, hk, rfl, hval⟩, fun h => h, rfl, by simp, fun h => h, fun h => h, fun h => Or.inl h, fun h => Or.inl h, rfl⟩
   | store i =>
     simp only [step] at hs; split at hs <;> try simp at hs
     rename_i c h
